@@ -319,8 +319,9 @@ fn mutate(rng: &mut Rng, t: &mut GTree, fragment: bool) -> Option<&'static str> 
                 e.kids.insert(at, GTree::leaf(GValue::Attribute(1, v.to_string())));
             };
             if els.len() >= 2 && rng.chance(1, 2) {
-                put(at_mut(t, &els[0]), "dup");
+                // later node first: inserting a child shifts the paths below the earlier one
                 put(at_mut(t, &els[1]), "dup");
+                put(at_mut(t, &els[0]), "dup");
                 Some("xml-id-twice")
             } else {
                 let p = rng.pick(&els).clone();
